@@ -891,10 +891,109 @@ func ruleQ9(c *Ctx) {
 	c.check(n >= 6, "Q9", "returns", token.NoPos, fmt.Sprintf("%d returns of the two parsing wrappers inspected (frozen minimum 6)", n))
 }
 
+// Q10: each side is looked at with its own coordinates. A pairwise function takes its two operands as two runs of
+// parameters with identical type sequences (buf1, offs1, buf2, offs2 [, flags] / u1, buf1, u2, buf2 [, flags]). A call
+// to a function of the package that is not itself pairwise (a parser, an accessor) must not receive values from both
+// runs: parsing the second list with the first list's offset gives a verdict that depends on where the lists sit in
+// their buffers.
+func pairedParams(fn *ssa.Function) (k int) {
+	ps := fn.Params
+	if fn.Signature.Recv() != nil {
+		return 0
+	}
+	for k = len(ps) / 2; k >= 1; k-- {
+		ok := true
+		for i := 0; i < k; i++ {
+			if !types.Identical(ps[i].Type(), ps[k+i].Type()) {
+				ok = false
+			}
+		}
+		// the first type of a run is a buffer, a URI or a list: not two plain integers
+		if ok && !isIntType(ps[0].Type()) {
+			return k
+		}
+	}
+	return 0
+}
+
+func ruleQ10(c *Ctx, rule string) {
+	var keys []string
+	for k := range c.Prog.SFuncs {
+		keys = append(keys, k)
+	}
+	sort.Strings(keys)
+	nFn, nCalls := 0, 0
+	for _, k := range keys {
+		fn := c.Prog.SFuncs[k]
+		if fn == nil || len(fn.Blocks) == 0 {
+			continue
+		}
+		kk := pairedParams(fn)
+		if kk == 0 || !(strings.Contains(fn.Name(), "Cmp") || strings.HasSuffix(fn.Name(), "Eq")) {
+			continue
+		}
+		nFn++
+		side := map[ssa.Value]int{} // bit 1 = first run, bit 2 = second run
+		for i := 0; i < kk; i++ {
+			side[fn.Params[i]] = 1
+			side[fn.Params[kk+i]] = 2
+		}
+		for changed := true; changed; {
+			changed = false
+			for _, b := range fn.Blocks {
+				for _, ins := range b.Instrs {
+					v, ok := ins.(ssa.Value)
+					if !ok {
+						continue
+					}
+					if _, isCall := ins.(*ssa.Call); isCall {
+						continue // results of calls are new values (a verdict, a parsed list), not coordinates
+					}
+					sd := side[v]
+					for _, op := range ins.Operands(nil) {
+						if *op != nil {
+							sd |= side[*op]
+						}
+					}
+					if sd != side[v] {
+						side[v] = sd
+						changed = true
+					}
+				}
+			}
+		}
+		ord := 0
+		for _, b := range fn.Blocks {
+			for _, ins := range b.Instrs {
+				call, ok := ins.(*ssa.Call)
+				if !ok {
+					continue
+				}
+				cal := call.Call.StaticCallee()
+				if cal == nil || cal.Pkg == nil || cal.Pkg.Pkg != c.Prog.Types || cal.Signature.Variadic() {
+					continue
+				}
+				if pairedParams(cal) > 0 {
+					continue
+				}
+				nCalls++
+				ord++
+				sd := 0
+				for _, a := range call.Call.Args {
+					sd |= side[a]
+				}
+				c.check(sd != 3, rule, fmt.Sprintf("%s:one-side-per-call#%d:%s", k, ord, ssaKey(cal)), call.Pos(), fmt.Sprintf("the call to %s in %s receives values of one operand only (its buffer with its own offset / list)", ssaKey(cal), k))
+			}
+		}
+	}
+	c.check(nFn >= 5 && nCalls >= 10, rule, "instances", token.NoPos, fmt.Sprintf("%d pairwise comparison functions, %d calls to non-pairwise package functions (frozen minimum 5 / 10)", nFn, nCalls))
+}
+
 func init() {
 	register(&PropDef{
 		ID: "C15",
 		Rules: []Rule{
+			{"Q10", "each side is looked at with its own coordinates: in the pairwise comparison functions (two runs of parameters with identical type sequences) no call to a non-pairwise function of the package receives values derived from both runs, so the second list is parsed in its own buffer at its own offset", func(c *Ctx) { ruleQ10(c, "Q10") }},
 			{"Q1", "out-parameter pairing: the k-th raw URI is parsed into local u_k, out-parameter k receives u_k, URICmp receives (&u1,raw1,&u2,raw2)", ruleQ1},
 			{"Q2", "URICmpShort's expression is invariant under swapping its two (uri,buffer) pairs modulo commutativity", ruleQ2},
 			{"Q3", "component -> comparator table: type/port ==, user/password bytes.Equal, host and parameter/header names and values CmpEq; URIParamResolve's six names under their own length cases via CmpEq; type flags distinct bits", ruleQ3},
